@@ -15,6 +15,12 @@ ASSUMPTIONS = [
     "Cauchy decrease: the solver treats directions with |d|^2 <= 10*eps*n*max(1,|g|) as non-descent (its documented "
     "stopping test); the corresponding decrease delta*sqrt(10*eps*n*max(1,|g|)) is allowed for, plus 1e-6 relative",
     "strict increase of the Cauchy geometry step is demanded only for constant term 0 (the way the framework calls it)",
+    "Cauchy decrease is demanded in two forms: (1) the full decrease of the steepest-descent step truncated at the "
+    "first bound and at the trust-region boundary (first segment of the solver's own path, which later segments "
+    "cannot lose); (2) for positive semidefinite Hessians, at least half of the decrease at the generalized Cauchy "
+    "point of the projected-gradient path (a correct active-set TCG need not reach the full GCP decrease - the "
+    "unchanged tree reaches >= 99.4% on the lattice - and with negative curvature the solver's first-order stopping "
+    "heuristic applies, so (2) is not demanded there)",
 ]
 RULE = ("same lattice as C15 (mc/e5sub.py); per instance the harness evaluates the subproblem's objective at the origin "
         "and at the returned step, and for the bound-constrained tangential solver the decrease of the projected-gradient "
@@ -46,6 +52,17 @@ def check(inst, s, err, ctx, stats):
             allow = 1e-6 * dec + tol + thr
             if dec > 0:
                 stats["cauchy_positive"] = stats.get("cauchy_positive", 0) + 1
+            # a fraction of the generalized Cauchy decrease (projected-gradient *path*), convex case only
+            Hm = ctx["H"]
+            hn = float(np.max(np.abs(Hm)))
+            if hn == 0.0 or float(np.min(np.linalg.eigvalsh(Hm))) >= -1e-12 * hn:
+                gcp = e5sub.ref_gcp_decrease(ctx)
+                if gcp > 0:
+                    stats["gcp_checked"] = stats.get("gcp_checked", 0) + 1
+                    if -q < 0.5 * gcp - allow and not e5sub.tiny_along_path(ctx):
+                        out.append(("gcp-fraction:" + fn,
+                                    f"tangential step decreases the model by {-q:.6g}, less than half of the "
+                                    f"decrease {gcp:.6g} at the generalized Cauchy point"))
             if -q < dec - allow:
                 # sub-key: the solver's non-descent test is absolute, |d|^2 <= 10*eps*n*max(1,|g|)
                 tiny = nd * nd <= 10.0 * EPS * n * max(1.0, float(np.linalg.norm(ctx["g"])))
@@ -115,7 +132,7 @@ def coverage(agg, tier, roots_):
     s = agg.stats
     herr = []
     for k in ["calls_tangential", "calls_constrained", "calls_normal", "calls_cauchy", "calls_spider",
-              "nonzero_steps", "cauchy_positive", "normal_violated_at_origin", "normal_improved",
+              "nonzero_steps", "cauchy_positive", "gcp_checked", "normal_violated_at_origin", "normal_improved",
               "cauchy_geo_improvable"]:
         if not s.get(k):
             herr.append(f"non-vacuity counter {k} is zero")
